@@ -9,13 +9,24 @@ MODS = ['S4V.Props.MemSpec']
 LEVEL_NOTE = ("Proved in general: a gz/bz2/lz4 reader asked in non-decreasing order holds exactly one block between calls and blocks_highest <= 2, for "
               "every content, block size, chunking and file size (READ_BLOCK_LOOKBACK_DROP; model S4V.Model.Stream, tied to the code by the C05 `asm` "
               "correspondence which compares blocks_highest). The stage-3 loop + drop path (drop_data_try target bo_first-2 with guard bo_first>1, syslines "
-              "selected by their LAST block, sysline removed from the map before Arc::try_unwrap, drop_line keeping the last part's block, consumer holding "
-              "up to CHANNEL_CAPACITY+2 messages; constants extracted from the source) is a counting model evaluated in the kernel: the unrestricted claim is "
-              "false (C17_full_false: lagging consumer => lines/blocks grow linearly, F8; line ends on block ends in a plain file => every such block is "
-              "retained even with a prompt consumer, F15); the partial bound (messages ending at most one block after they start, every block boundary "
-              "crossed by a line, consumer not lagging => 7 blocks / 6 lines / 5 messages) is CHECKED at 10-80 messages, not proved for all sizes. "
-              "End to end: --summary high-water marks on generated files growing x10.")
-ASSUME = ["the general induction for C17_bound_partial over the stage-3 model is not done (instances only)",
+              "selected by their LAST block, sysline removed from the map before Arc::try_unwrap, drop_sysline handing ALL lines to drop_lines and drop_lines "
+              "calling drop_line on EVERY line (DROP_SYSLINE_PASSES_ALL_LINES, DROP_LINES_VISITS_ALL: shape-checked in linereader.rs / syslinereader.rs; a "
+              "short-circuit form regenerates `false`, an unknown form fails generation), drop_line keeping the last part's block, consumer holding up to "
+              "CHANNEL_CAPACITY+2 messages; constants extracted from the source) is a counting model (S4V.Model.Mem). Proved for ALL sizes by an invariant over "
+              "the loop (S4V.Lemmas.Mem.Inv, preserved by findMsg and by the drop): C17_bound_partial_general - for every message list in which message j starts "
+              "in block j, ends in block j+1 and has at most M lines (decidable hypothesis `Straddling M`: each message ends one block after it starts, every block "
+              "boundary crossed by a line) and a consumer that is not lagging: blocks high <= 7, lines high <= 5M+1, syslines high <= 5 on a plain file and "
+              "2 / 5M+1 / 5 on a streamed reader, whatever the number of messages (C17_bound_partial_straddle: 7/6/5 for the one-line family at every n; the "
+              "kernel-evaluated instances at 10-80 messages show the bounds are attained); C17_blocks_streamed_loop - blocks high <= 2 on a streamed reader for "
+              "every input and every consumer lag. The unrestricted claim is false (C17_full_false: lagging consumer => lines/blocks grow linearly, F8; line ends "
+              "on block ends in a plain file => every such block is retained even with a prompt consumer, F15). Counter-model for the drop_lines loop "
+              "(drop_lines_short_circuit_grows): with `lines.into_iter().any(..)` 3-line messages whose inner line crosses a block boundary retain >= n lines for "
+              "every n (proved), 20/30/50 at 10/20/40 messages against 16 for the code as extracted. End to end: --summary high-water marks on generated files "
+              "growing x10, including 61-line messages at the default block size.")
+ASSUME = ["the general bound covers the geometry `Straddling M` (exactly one message per block boundary, up to M lines each); several messages per block "
+          "(the common case at the default block size) are covered by the end-to-end series only, not by a general proof",
+          "in the short-circuit variant of the model drop_block is taken to return true (Arc::try_unwrap of a block succeeds once the earlier lines sharing it "
+          "were dropped); the variant is a counter-model, the code as extracted does not use it",
           "which messages the printing thread still holds is scheduling dependent; the model takes any lag up to CHANNEL_CAPACITY+2",
           "allocator behaviour and real RSS are not modelled; the marks are the ones --summary reports",
           "binary search under -a on a plain file (logarithmic allowance) is not covered"]
